@@ -489,3 +489,93 @@ def rule_lookup_unwrap(ctx, config='dev'):
     r.floor = 6
     r.check_floor()
     return r
+
+
+# ---------------------------------------------------------------- CONTENT-UNWRAP (round 10)
+def rule_content_unwrap(ctx, config='dev'):
+    """the optional content a source announcement carries is unwrapped only where it is known to be there"""
+    from .streams import composites, closure_kind
+    f = ctx.facts(config)
+    r = RuleResult('CONTENT-UNWRAP', 'inside a composite streamer, the content parameter of a source-announcement callback '
+                                     '(`Option<Rope>`: a supplied map may list a source without sourcesContent) is unwrapped only on '
+                                     'paths where it was assigned `Some(..)` or tested to be `Some`: forward may-be-None analysis of the '
+                                     'callback body')
+    comps, ol = composites(f)
+    seen = set()
+    for root, members, inner in comps:
+        for m in members:
+            if m.key in seen or m.d['kind'] != 'Closure' or closure_kind(m) != 'source':
+                continue
+            seen.add(m.key)
+            P = m.arg_count          # the last parameter: the content
+            if 'option::Option' not in m.local_ty(P):
+                continue
+            # locals that hold (a move of) the parameter
+            def holds(o, depth=0):
+                if o['k'] not in ('copy', 'move') or o['p']['pr'] or depth > 3:
+                    return False
+                if o['p']['l'] == P:
+                    return True
+                ds = m.whole_defs(o['p']['l'])       # an unnamed temporary the parameter was moved into
+                return (not m.local_name(o['p']['l']) and len(ds) == 1 and ds[0][1] == 'assign' and ds[0][2]['r']['k'] == 'use'
+                        and holds(ds[0][2]['r']['o'], depth + 1))
+            n = len(m.blocks)
+            MAYBE, SOME = 1, 0
+            inn = {0: MAYBE}
+            edge_some = {}          # (from, to) -> SOME established on this edge
+            work = [0]
+            out_state = {}
+            def transfer(bb, st):
+                for s in m.stmts(bb):
+                    if s['k'] == 'assign' and s['p']['l'] == P and not s['p']['pr']:
+                        rv = s['r']
+                        st = SOME if (rv['k'] == 'agg' and (rv.get('variant') == 'Some')) else MAYBE
+                t = m.term(bb)
+                if t['k'] == 'call' and t['dest']['l'] == P and not t['dest']['pr']:
+                    st = MAYBE
+                return st
+            while work:
+                bb = work.pop()
+                st = transfer(bb, inn[bb])
+                out_state[bb] = st
+                t = m.term(bb)
+                succs = [x for x in m.succs(bb) if not m.is_cleanup(x)]
+                some_targets = set()
+                if t['k'] == 'switch' and t['d']['k'] in ('copy', 'move') and not t['d']['p']['pr']:
+                    ds = m.whole_defs(t['d']['p']['l'])
+                    if len(ds) == 1 and ds[0][1] == 'assign' and ds[0][2]['r']['k'] == 'discr':
+                        dp = ds[0][2]['r']['p']
+                        if dp['l'] == P and not [x for x in dp['pr'] if x != '*']:
+                            some_targets = {x[1] for x in t['targets'] if x[0] == 1}
+                            if not some_targets and [x for x in t['targets'] if x[0] == 0]:
+                                some_targets = {t['otherwise']}
+                for sx in succs:
+                    ns = SOME if sx in some_targets else st
+                    old = inn.get(sx)
+                    new = ns if old is None else max(old, ns)
+                    if old is None or new != old:
+                        inn[sx] = new
+                        work.append(sx)
+            for pt, t in m.calls():
+                c = t.get('callee')
+                if not (c and c['name'] in ('unwrap', 'expect') and 'option::Option' in c['path'] and t['args'] and holds(t['args'][0])):
+                    continue
+                bb = pt[0]
+                if bb not in inn:
+                    continue
+                st = inn[bb]
+                for s in m.stmts(bb):
+                    if s['k'] == 'assign' and s['p']['l'] == P and not s['p']['pr']:
+                        rv = s['r']
+                        st = SOME if (rv['k'] == 'agg' and rv.get('variant') == 'Some') else MAYBE
+                ok = st == SOME
+                r.site('%s: unwrap of the announced content %s' % (m.path, 'where it is known to be Some' if ok else 'where it may be None'),
+                       t['s'], 'ok' if ok else 'violation')
+                if not ok:
+                    r.violation('%s:content:%s' % (root.path, c['name']), t['s'], m.path,
+                                'the content a source announcement carries is unwrapped on a path where nothing made it `Some`: a supplied '
+                                'map that lists the source without sourcesContent (and no original source given) makes stream_chunks / '
+                                'map() panic on `None`')
+    if not r.sites:
+        r.info('no unwrap of an announced content inside a composite streamer')
+    return r
